@@ -223,3 +223,24 @@ def _replay_chain(model, contract):
 
 for _k in ("model:Parameter.set_dynamic#chain_below_a_program_target", "model:Parameter.set_dynamic#chain_without_programs"):
     CONTRACTS[_k]["replay_hook"] = _replay_chain
+
+
+# ---- Model.process, the output ("postcompute") function parameters evaluated after the integration (C06: "clipped to limits"): the body of the loop over the parameters of one
+# name.  A function parameter that is neither dynamic nor precomputed is evaluated over the whole run and THEN clipped to its limits -- each population's parameter, not only the
+# last one; other parameters are left alone here (they were evaluated and clipped during the run)
+def _env_postcompute(fcn, dynamic, precompute):
+    def make(it):
+        from pyvc.interp import PyObjV
+        from pyvc import source
+
+        return {"par": PyObjV("Parameter", source.load("model"), {"name": "out", "fcn_str": fcn, "_is_dynamic": dynamic, "_precompute": precompute, "DONE": []}), "self": None, "par_name": "out"}
+
+    return make
+
+
+_pc_stubs = {"par.update": (lambda it, *a: it.stub_receiver.fields["DONE"].append("update")), "par.constrain": (lambda it, *a: it.stub_receiver.fields["DONE"].append("constrain"))}
+for _tag, _fcn, _dyn, _pre, _want in (("output_function_parameter", "a+b", False, False, ["update", "constrain"]), ("dynamic_parameter", "a+b", True, False, []), ("precomputed_parameter", "a+b", False, True, []), ("data_parameter", None, False, False, [])):
+    CONTRACTS["model:Model.process#postcompute_%s" % _tag] = dict(
+        schema="covout", fragment={"iter": "self._vars_by_pop[par_name]", "body_contains": "par.update()"}, make_env=_env_postcompute(_fcn, _dyn, _pre), call_stubs=_pc_stubs,
+        ensures=[("C06.an_output_function_parameter_is_evaluated_and_then_clipped_in_every_population" if _want else "C06.parameters_handled_during_the_run_are_left_alone_afterwards", "par.DONE == %r" % _want)],
+        defined_props=["C06"])
